@@ -16,6 +16,9 @@ structure Cfg where
   autoStart : Bool := true
   /-- delay before reconnecting after a lost connection, in ms (asyncio: none; Twisted: the retry policy) -/
   lossDelay : Nat := 0
+  /-- delay before the next attempt after a refused one, in ms (`asyncio.sleep(1)` in `_tryconnect`; Twisted: the
+      retry policy) — measured on the real session by the harness at the start of every run -/
+  retryDelay : Nat := 1000
 
 /-- where the `reconnect()` task is -/
 inductive Task
@@ -215,7 +218,7 @@ def stepK (cfg : Cfg) (s : State) (pre : List Out) (e : Ev) : State × List Out 
       ({ s with task := .waiting, nconn := s.nconn + 1, conn := some { k := s.nconn + 1 } }, pre)
     else (s, pre)
   | .refuse =>
-    if s.task = .connecting then ({ s with task := .sleeping (s.now + 1000) }, pre) else (s, pre)
+    if s.task = .connecting then ({ s with task := .sleeping (s.now + cfg.retryDelay) }, pre) else (s, pre)
   | .advance ms =>
     let s1 := { s with now := s.now + ms }
     match s1.task with
